@@ -9,3 +9,8 @@ package media
 //@ func (h Handler) GetIdFromUrl(url string) (id types.Uid)
 //@   modifies idLookups
 //@   ensures idLookups == old(idLookups) + 1
+
+// C16: computing the CORS headers of a request reads the request and leaves it as it is (assumed of the handlers; both
+// the file-system and the S3 handler delegate to media.CORSHandler, which only reads the method and the headers).
+//@ func (h Handler) Headers(req *http.Request, serve bool) (hdr http.Header, status int, err error)
+//@   modifies nothing
